@@ -13,8 +13,8 @@ Lemma pattern_numeric_tied : CFGID_PATTERN_NUMERIC = model_pattern_numeric.
 Proof. reflexivity. Qed.
 Lemma pattern_nameonly_tied : CFGID_PATTERN_NAMEONLY = model_pattern_nameonly.
 Proof. reflexivity. Qed.
-(* the string constants of cfgid_str are exactly the two format strings the printer
-   implements; those of __str__ are "", the separator " " and the name-only format *)
+(* the template string constants of cfgid_str are exactly the two format strings the printer
+   implements; the one of __str__ is the name-only format *)
 Lemma cfgidstr_strings_tied : CFGID_CFGIDSTR_STRINGS = model_cfgidstr_strings.
 Proof. reflexivity. Qed.
 Lemma str_strings_tied : CFGID_STR_STRINGS = model_str_strings.
